@@ -19,6 +19,7 @@ from __future__ import annotations
 import inspect, json
 import numpy as np
 from .. import core, iso, catalog, specs
+from . import c10_misc
 
 ID = 'C10'
 LEVEL = 'other'
@@ -499,14 +500,20 @@ def _model2_line_and_direct(case):
         return f"c10 kind=thin rows={q['rows']} cols={q['cols']} img={_csv(q['img'])}", a, done, dict(frame=str(int(frame)))
     if w == 'cwnb':
         return (f"c10 kind=cwnb shape={_csv(q['shape'])} bshape={_csv(q['bshape'])}",) + _py_cwnb(q['shape'], q['bshape']) + ({},)
+    if w in c10_misc.KINDS:        # round 3: histogram, lbp map, bbox, relabel / remove_regions, distance_multi
+        return c10_misc.line_and_direct(w, q)
     raise core.Infra(f'unknown model2 kind {w}')
 
 
 def _eval_model2(case):
     line, acc, term, extra = _model2_line_and_direct(case)
     drv = core.drive([line])[0]
-    ok = all(0 <= i < n for i, n in acc) and term
-    want = dict(ok=str(int(ok)), n=str(len(acc)), term=str(int(term)), sum=str(sum(i for i, _ in acc)), **extra)
+    if acc is None:       # the direct evaluation returned the complete expected answer (accesses that are positions)
+        want, acc = dict(extra), [None] * int(extra['n'])
+        ok = want['ok'] == '1'
+    else:
+        ok = all(0 <= i < n for i, n in acc) and term
+        want = dict(ok=str(int(ok)), n=str(len(acc)), term=str(int(term)), sum=str(sum(i for i, _ in acc)), **extra)
     fnd = []
     bad = {k: (drv.get(k), v) for k, v in want.items() if drv.get(k) != v}
     if 'error' in drv or bad:
@@ -585,7 +592,7 @@ def evaluate(cases):
     for c in cases:
         k = c.get('kind', 'sweep')
         out.append(_eval_filter(c) if k == 'filter' else _eval_model(c) if k == 'model' else _eval_model2(c) if k == 'model2' else
-                   _eval_zoomshift_real(c) if k == 'zoomshift' else _eval_sweep(c))
+                   _eval_zoomshift_real(c) if k == 'zoomshift' else c10_misc.eval_real(c, SRC) if k == 'miscreal' else _eval_sweep(c))
     return out
 
 
@@ -758,6 +765,9 @@ def cases(rng, tier):
         # round 2 (appended last so that the random stream of the cases above is unchanged)
         out += _model2_cases(rng, dict(quick=600, thorough=6000, search=0)[tier])
         out += _zoomshift_cases(rng, dict(quick=120, thorough=1500, search=0)[tier])
+        # round 3 (appended last again)
+        out += c10_misc.model_cases(rng, dict(quick=300, thorough=3000, search=0)[tier])
+        out += c10_misc.real_cases(rng, dict(quick=150, thorough=1500, search=0)[tier])
     return out
 
 
